@@ -78,7 +78,10 @@ class Context():
             namespace = namespaces.pop()
             decl = self._context.get(namespace, {}).get(decl_type)
             if decl is not None:
-                decls.update(decl)
+                # An artificial (None) entry must not hide a declaration with
+                # the same name that lives in another namespace.
+                decls.update({k: v for k, v in decl.items()
+                              if v is not None or decls.get(k) is None})
             namespaces.extend(self.find_namespaces(namespace, True))
         return decls
 
